@@ -13,6 +13,9 @@ CLAIMED = {
  "C08": dict(tech="Lean 4: invariant by induction over arbitrary item sequences / event interleavings for a model of _handshake, handleRequest and both transports' connection life cycle; extracted accept-lists and guard shapes; history correspondence on the real transports over in-memory sockets",
              text="Proof: for every sequence of items on a connection and every interleaving over any number of connections, a method is executed only after the first reply on that connection was CONNECTOK; the handshake accepts exactly a well-formed CONNECT with a known serializer for a registered object accepted by the validator, every other first item gets CONNECTFAIL (or nothing iff the peer is gone) and the connection is closed, after which nothing pipelined has any effect. Tie: generated histories rendered with the real encoder through the real thread-pool and multiplex servers vs the model driver (replies, executions, closure).",
              note="byte level delegated to C06/C17 (items = outcomes of recv_stub); serializer dump failures are parameters supplied per history; pre-connected socket pairs exempt by the property."),
+ "C12": dict(tech="Lean 4: ownership invariant over an explicit heap of response-annotation dict objects (thread-local current dict per worker, oneway threads sharing the spawning request's dict and writing at any later point), by induction over arbitrary event sequences; extracted reset points; history correspondence on both real transports incl. single-worker reuse and gated oneway writes",
+             text="Proof: in every history of requests from any clients on any workers, with oneway writes interleaved anywhere, every response annotation sent with a reply, ping or handshake answer was written by the method of that same request (answers no method produced carry none), and every context snapshot a method takes equals its own request's data, also in the oneway thread. Tie: histories on the real multiplex server, thread-pool server and single-worker pool with methods that assign/mutate annotations and return/raise, gated oneway writes; all reply annotations and context snapshots compared with the model and checked directly.",
+             note="threading.local isolation assumed; oneway write points on the real code are the release points the harness picks (the model covers all); batch and stream replies are not distinguished from normal replies in this model."),
  "C13": dict(tech="Lean 4: accounting invariant (hook calls, close calls, resource closes, session instances, slot) by induction over item sequences and event interleavings on the server model; extracted finally/inactive-branch shapes; history correspondence incl. a cut at every byte offset on both real transports",
              text="Proof: for every way and point a connection can end, when it is closed the disconnect hook ran exactly once iff it had been accepted, the connection was closed once, exactly the resources tracked at that moment were closed, each once, session instances dropped, slot released; before that nothing is cleaned up; other connections' records are untouched (frame). Tie: histories with track/untrack/session calls and every ending, plus one request cut at every byte offset, on the real thread-pool and multiplex servers vs the model (hook count, per-resource close count, pool/selector accounting).",
              note="GC timing of weakly tracked resources and daemon shutdown with open connections are outside the model; byte level delegated to C06/C17."),
